@@ -35,6 +35,20 @@ CLAIMED = {
              "NOT decided. Assumes std::vector move leaves the source empty and that users do not mutate the map through "
              "the non-const accessor.",
     ),
+    "C09": dict(
+        category="other",
+        design_ref="DESIGN.md section 3 / C09",
+        technique="static analysis: guard dominance on the clang CFG; E-BOUNDS abstract interpretation with requirements of "
+                  "private helpers discharged by their callers' guards",
+        text="Decides two clauses: (R1) frames whose ICV/MIC comparison fails are never returned as decrypted, and the "
+             "drivers report success only with a non-null payload installed and the protected flag cleared; (R2) "
+             "decrypting truncated/hostile protected frames is memory-safe for every access with a linear offset in "
+             "src/crypto.cpp (payload vectors, PTK, scratch blocks, OpenSSL block/digest sizes); (R3) WPA2 keys are "
+             "looked up by source pair then destination pair. Two genuine memory-safety defects found here were repaired "
+             "with fix: commits.",
+        note="NOT decided: cipher correctness, PTK derivation, handshake orderings (seeded changes of that kind are not "
+             "detected). One CCMP per-block offset depends on division/modulo and is listed as undecided, not proven.",
+    ),
     "C10": dict(
         category="other",
         design_ref="DESIGN.md section 3 / C10",
